@@ -34,15 +34,16 @@ const (
 	FEQuery
 	FEEnv
 	FEHTTPJSONStream // zhttp JSON body of unknown length (chunked upload: ContentLength == -1)
+	FEJSONFramed     // zjson.Decode on a seekable reader positioned AFTER a frame header the caller has already consumed
 	feCount
 )
 
 func (fe FrontEnd) String() string {
-	return [...]string{"gomap", "zjson", "zhttp-json", "zhttp-form", "zhttp-query", "zenv", "zhttp-json-stream"}[fe]
+	return [...]string{"gomap", "zjson", "zhttp-json", "zhttp-form", "zhttp-query", "zenv", "zhttp-json-stream", "zjson-framed"}[fe]
 }
 
 func (fe FrontEnd) SourceTag() string {
-	return [...]string{"", "json", "json", "form", "query", "env", "json"}[fe]
+	return [...]string{"", "json", "json", "form", "query", "env", "json", "json"}[fe]
 }
 
 func (fe FrontEnd) Flat() bool { return fe >= FEForm && fe <= FEEnv }
@@ -174,7 +175,7 @@ func Render(fe FrontEnd, root *Node, input any) *Rendered {
 		r.MkData = func() any { return input }
 		r.Src = input
 		r.Desc = fmt.Sprintf("Go map %#v", input)
-	case FEJSON, FEHTTPJSON, FEHTTPJSONStream:
+	case FEJSON, FEHTTPJSON, FEHTTPJSONStream, FEJSONFramed:
 		if !isMap {
 			r.Expressible, r.Why = false, "top level is not a record"
 			return r
@@ -191,7 +192,14 @@ func Render(fe FrontEnd, root *Node, input any) *Rendered {
 		}
 		r.Src = &specSrc{tag: tag, m: view}
 		r.Desc = fmt.Sprintf("%s %s", fe, text)
-		if fe == FEJSON {
+		if fe == FEJSONFramed {
+			r.MkData = func() any {
+				rd := strings.NewReader("HDR:0042\n" + string(text))
+				hdr := make([]byte, 9)
+				io.ReadFull(rd, hdr) // the caller has read its own frame header; the document starts here
+				return zjson.Decode(rd)
+			}
+		} else if fe == FEJSON {
 			r.MkData = func() any { return zjson.Decode(strings.NewReader(string(text))) }
 		} else if fe == FEHTTPJSONStream {
 			r.MkData = func() any {
